@@ -34,6 +34,7 @@ func runC01(c *core.Ctx) {
 	ruleRealDot(c)
 	ruleFormatDeterminism(c)
 	ruleRefLimits(c, "C01-R8")
+	ruleRealParse(c, "C01-R9", [2]string{"pdf", "(*scanner).ReadNumber"})
 }
 
 // ruleHexString: "<%x>" on the writer side; reader's digit alphabet is [0-9A-Fa-f].
@@ -849,4 +850,60 @@ func assignedFromParseUint(fn *core.Func, obj types.Object, bits int64) bool {
 		}
 	}
 	return true
+}
+
+// ruleRealParse (C01-R9): a Real survives the round trip only if the scanner
+// converts the literal with a correctly rounded decimal-to-binary conversion
+// of the whole text (the formatter writes the shortest text that identifies
+// the float64).  Every Real a number reader returns is the first result of
+// strconv.ParseFloat(text, 64); no Real is assembled by floating-point
+// arithmetic (a mantissa divided by a power of ten is rounded twice).
+func ruleRealParse(c *core.Ctx, rule string, targets ...[2]string) {
+	for _, t := range targets {
+		t := t
+		c.Check(rule, t[0]+"."+t[1]+"/real", "every Real returned by the number reader is the result of strconv.ParseFloat on the literal text", func(o *core.Ob) {
+			fn := c.Prog.Func(t[0], t[1])
+			info := fn.Info()
+			n := 0
+			ast.Inspect(fn.Decl.Body, func(m ast.Node) bool {
+				call, ok := m.(*ast.CallExpr)
+				if !ok || len(call.Args) != 1 {
+					return true
+				}
+				tv, ok := info.Types[call.Fun]
+				if !ok || !tv.IsType() || !core.IsNamed(tv.Type, "pdf", "Real") {
+					return true
+				}
+				n++
+				o.Count(1)
+				o.At(fn.Site(call, "Real produced"))
+				arg := ast.Unparen(call.Args[0])
+				okSrc := false
+				if obj := core.ObjOf(info, arg); obj != nil {
+					defs := core.AssignsTo(info, fn.Decl, obj)
+					okSrc = len(defs) > 0
+					for _, d := range defs {
+						as, isAs := d.(*ast.AssignStmt)
+						if !isAs || len(as.Rhs) != 1 {
+							okSrc = false
+							continue
+						}
+						pc, isCall := core.IsCallTo(info, as.Rhs[0], "strconv.ParseFloat")
+						if !isCall || core.ObjOf(info, as.Lhs[0]) != obj {
+							okSrc = false
+							continue
+						}
+						if k, isK := core.IntConst(info, pc.Args[1]); !isK || k != 64 {
+							okSrc = false
+						}
+					}
+				}
+				if !okSrc {
+					o.FailAt(fn.Site(call, ""), "%s: the Real %s is not the result of strconv.ParseFloat(text, 64): values assembled by floating-point arithmetic are rounded twice and differ from the written value in the last bit", c.Prog.Pos(call.Pos()), c.Prog.Src(call))
+				}
+				return true
+			})
+			o.Require(n >= 1, "%s produces no Real", fn.Key)
+		})
+	}
 }
